@@ -15,7 +15,8 @@ Inductive fn :=
 | FTuple                  (* args |-> tuple(args) *)
 | FNth (n : nat)          (* args |-> args[n] (an argument itself: identity preserved) *)
 | FMaxKey                 (* args |-> the first argument of maximal key *)
-| FConst (v : val).
+| FConst (v : val)
+| FNoneIfMod (m r : Z).   (* [x] |-> None if key x mod m == r else int(key x) *)
 
 Fixpoint first_max (best : val) (l : list val) : val :=
   match l with
@@ -34,4 +35,5 @@ Definition apply_fn (f : fn) (args : list val) : val :=
   | FNth n => nth n args VNone
   | FMaxKey => match args with [] => VNone | x :: r => first_max x r end
   | FConst v => v
+  | FNoneIfMod m r => match args with [x] => if Z.eqb (Z.modulo (key_of x) m) r then VNone else VInt (key_of x) | _ => VNone end
   end.
